@@ -16,15 +16,27 @@
          | 3 q                                            the drain loop served query q (HashMap order: recorded)
          | 4 p alive | 5 p | 6 p | 7 p v                  connection established / closed / task dies / manager belief
          | 8 p sid | 9 sid | 10 p | 11 p id               substream opened / open failure / dial failure / inbound
-         | 12 id rtag how [msg]                           executor completion; rtag 0 SendSuccess, 1 AssumeSendSuccess,
-                                                          2 SendFailure, 3 ReadFailure, 4 ReadSuccess msg;
-                                                          how 1: produced by the 15 s timeout (ignored by the model)
+         | 12 id wb rb tmo [msg]                          what the substream of executor future id does: the write side
+                                                          wb 0 accepts the frame, 1 fails, 2 blocks for ever; the read
+                                                          side rb 0 delivers msg, 1 ends, 2 stays silent; the RESULT of
+                                                          the future is computed by the executor model (Exec.v) from the
+                                                          kind of the future; tmo 1: the environment let 16 s pass with
+                                                          this future in flight (the oracle demands that it is gone)
          | 14 q uctag qtag qn rk t0..t31 | 15 q qtag qn rk ngiven p* | 16 rk | 17 p addr     (mode 1: command with
                                                           its 256-bit target key, put_record_to_peers with the GIVEN
                                                           peers, store_record, add_known_peer)
+         | 19 id rtag [rk] [t0..t31 | valid]              (mode 1) the read future of inbound substream id delivers a
+                                                          request: rtag 0 FIND_NODE rk target, 1 PUT_VALUE rk,
+                                                          2 GET_VALUE rk target, 3 GET_PROVIDERS rk target, 4 ADD_PROVIDER valid
+         | 20 rk | 21 q rk t0..t31                        (mode 1) stop_providing; a refresh timer of the store fires
+         mode bits: 0 composed, 1 zero peer timeout, 2 RoutingTableUpdateMode::Manual,
+                    3 IncomingRecordValidationMode::Manual
    msg   = 0 npeers p* | 1 | 2 haskey recflag recid npeers p* | 3 valid
          | 4 haskey nprov (peer naddr addr* )* npeers p* | 5
    trace = 1 group*     one group per event of `select!` (the event, then the drain that follows)
+           (2 ... on a bounded event channel, 3 ... in composed mode: the group is followed by the
+            non-empty k-buckets, the stored record keys, the provided keys, the number of armed refresh
+            timers and the replies written to inbound substreams, see dump_w / flush_c)
    group = ok nouts out* dump
    out   = 0 q n p* | 1 q | 2 q | 3 q | 4 q n (peer naddr addr* )* | 5 q | 6 q p r | 7 n p* | 8 | 9 | 10 q n p*
    dump  = ndials (p nacts (kind q)* )*  npeers (p nacts (sid kind q)* )*  nsubs (sid p)*  nfuts
@@ -35,15 +47,36 @@
 From Coq Require Import List NArith Bool.
 From V.gen Require Consts.
 From V.common Require Import Wire.
-From V.C16 Require Import Model Compose.
+From V.C16 Require Import Model Compose Exec.
 Import ListNotations.
 Open Scope N_scope.
 
+(* the shipped executor timeouts *)
+Definition TMO : tmo := mkT V.gen.Consts.KAD_WRITE_TIMEOUT_SECS V.gen.Consts.KAD_READ_TIMEOUT_SECS.
+
+(* the completion of an executor future as the environment plays it: what the substream does *)
+Record futb := mkFB { fb_id : N; fb_w : wbeh; fb_r : rbeh; fb_tmo : bool }.
+
+(* the QueryResult the executor reports: the kind of the future is read from the state *)
+Definition result_of (s : st) (b : futb) : fres :=
+  match find_fut (fb_id b) (futs s) with
+  | Some f => fst (exec TMO (f_kind f) (fb_w b) (fb_r b))
+  | None => RSendOk
+  end.
+
+Inductive gev := GB (b : bev) | GFut (f : futb).
+Inductive guev := GU (u : uev) | GUFut (f : futb).
+
+Definition res_b (s : st) (x : gev) : bev :=
+  match x with GB b => b | GFut f => BEv (EFut (fb_id f) (result_of s f)) end.
+Definition res_u (s : st) (x : guev) : uev :=
+  match x with GU u => u | GUFut f => UEv (EFut (fb_id f) (result_of s f)) end.
+
 Record case := mkCase {
-  k_g : gcfg; k_mgr : list (N * N); k_known : list N; k_cap : N;
+  k_g : gcfg; k_mgr : list (N * N); k_known : list N; k_cap : N; k_mode : N;
   k_keys : list (N * key);            (* compose mode: peer label -> 256-bit key; [] = base mode *)
-  k_events : list bev;
-  k_uevents : list uev                (* compose mode *)
+  k_events : list gev;
+  k_uevents : list guev               (* compose mode *)
 }.
 
 (* count-prefixed list with a constant bound on the count (Wire.plist measures the remaining input
@@ -100,24 +133,25 @@ Definition p_ev (tag : N) : parser ev :=
   | 9 => let* sid := pN in pret (EOpenFail sid)
   | 10 => let* p := pN in pret (EDialFail p)
   | 11 => let* p := pN in let* id := pN in pret (EInbound p id)
-  | 12 => let* id := pN in let* rtag := pN in let* _how := pN in
-          match rtag with
-          | 0 => pret (EFut id RSendOk)
-          | 1 => pret (EFut id RAssume)
-          | 2 => pret (EFut id RSendFail)
-          | 3 => pret (EFut id RReadFail)
-          | 4 => let* m := p_msg in pret (EFut id (RRead m))
-          | _ => pfail
-          end
   | 18 => let* d := pN in pret (ETick d)
   | _ => pfail
   end.
 
-Definition p_event : parser bev :=
+Definition p_futb : parser futb :=
+  let* id := pN in let* wb := pN in let* rb := pN in let* tm := pBool in
+  let w := match wb with 0 => WAccept 0 | 1 => WFail 0 | _ => WNever end in
+  match rb with
+  | 0 => let* m := p_msg in pret (mkFB id w (RMsg 0 m) tm)
+  | 1 => pret (mkFB id w (RClose 0) tm)
+  | _ => pret (mkFB id w RNever tm)
+  end.
+
+Definition p_event : parser gev :=
   let* tag := pN in
   match tag with
-  | 13 => pret BRecv
-  | _ => let* e := p_ev tag in pret (BEv e)
+  | 12 => let* f := p_futb in pret (GFut f)
+  | 13 => pret (GB BRecv)
+  | _ => let* e := p_ev tag in pret (GB (BEv e))
   end.
 
 (* a byte as 8 bits, most significant first *)
@@ -126,26 +160,40 @@ Definition byte_bits (b : N) : list bool :=
 Definition p_key : parser key :=
   let* bytes := prep 32 pN in pret (flat_map byte_bits bytes).
 
-Definition p_uev : parser uev :=
+Definition p_inreq : parser inreq :=
   let* tag := pN in
   match tag with
+  | 0 => let* _ := pN in let* t := p_key in pret (IFindNode t)
+  | 1 => let* rk := pN in pret (IPutValue rk)
+  | 2 => let* rk := pN in let* t := p_key in pret (IGetValue rk t)
+  | 3 => let* _ := pN in let* t := p_key in pret (IGetProviders t)
+  | 4 => let* v := pBool in pret (IAddProvider v)
+  | _ => pfail
+  end.
+
+Definition p_uev : parser guev :=
+  let* tag := pN in
+  match tag with
+  | 12 => let* f := p_futb in pret (GUFut f)
+  | 19 => let* id := pN in let* rq := p_inreq in pret (GU (UInReq id rq))
+  | 20 => let* rk := pN in pret (GU (UStopProviding rk))
+  | 21 => let* q := pN in let* rk := pN in let* t := p_key in pret (GU (UFire q rk t))
   | 14 => let* q := pN in let* uc := pN in let* qtag := pN in let* qn := pN in let* rk := pN in
           let* target := p_key in
           let qr := quorum_of qtag qn in
           match uc with
-          | 0 => pret (UCmd q UCFind target)
-          | 1 => pret (UCmd q (UCPut qr rk) target)
-          | 2 => pret (UCmd q (UCProv qr) target)
-          | 3 => pret (UCmd q (UCGet qr rk) target)
-          | 4 => pret (UCmd q UCGetProv target)
-          | 5 => pret (UCmd q (UCRefresh qr) target)
+          | 0 => pret (GU (UCmd q UCFind target))
+          | 1 => pret (GU (UCmd q (UCPut qr rk) target))
+          | 2 => pret (GU (UCmd q (UCProv qr rk) target))
+          | 3 => pret (GU (UCmd q (UCGet qr rk) target))
+          | 4 => pret (GU (UCmd q UCGetProv target))
           | _ => pfail
           end
   | 15 => let* q := pN in let* qtag := pN in let* qn := pN in let* rk := pN in let* ps := plist pN in
-          pret (UPutToPeers q (quorum_of qtag qn) rk ps)
-  | 16 => let* rk := pN in pret (UStoreRecord rk)
-  | 17 => let* p := pN in let* a := pBool in pret (UAddKnownPeer p a)
-  | _ => let* e := p_ev tag in pret (UEv e)
+          pret (GU (UPutToPeers q (quorum_of qtag qn) rk ps))
+  | 16 => let* rk := pN in pret (GU (UStoreRecord rk))
+  | 17 => let* p := pN in let* a := pBool in pret (GU (UAddKnownPeer p a))
+  | _ => let* e := p_ev tag in pret (GU (UEv e))
   end.
 
 Definition p_case : parser case :=
@@ -155,16 +203,16 @@ Definition p_case : parser case :=
   let* cap := pN in
   let* mode := pN in
   (* mode: bit 0 = composed case, bit 1 = the peer timeout is zero (every pending peer of an earlier
-     next_action call is stale) instead of unreachable *)
+     next_action call is stale) instead of unreachable, bit 2 = manual routing-table updates,
+     bit 3 = manual validation of incoming records *)
   let g := mkG k V.gen.Consts.PARALLELISM_FACTOR local (if N.testbit mode 1 then 0 else BIG) in
   if negb (N.testbit mode 0) then
-    let* evs := plist p_event in pret (mkCase g m known cap [] evs [])
+    let* evs := plist p_event in pret (mkCase g m known cap mode [] evs [])
   else
     let* keys := plist (let* p := pN in let* ky := p_key in pret (p, ky)) in
-    let* uevs := plist p_uev in pret (mkCase g m known cap keys [] uevs).
+    let* uevs := plist p_uev in pret (mkCase g m known cap mode keys [] uevs).
 
-Definition plain_events (l : list bev) : list ev :=
-  map (fun b => match b with BEv e => e | BRecv => ENop end) l.
+Definition plain (b : bev) : ev := match b with BEv e => e | BRecv => ENop end.
 
 Definition decode_case (l : list N) : option case := pall p_case l.
 
@@ -234,11 +282,12 @@ Definition flush (s : st) (ok : bool) (outs : list out) : list N :=
   b2n (ok && quiescent s) :: enc_list enc_out outs ++ dump s.
 
 (* `open`: a group is being accumulated *)
-Fixpoint run_groups (g : gcfg) (s : st) (open : bool) (ok : bool) (outs : list out) (es : list ev)
+Fixpoint run_groups (g : gcfg) (s : st) (open : bool) (ok : bool) (outs : list out) (es : list gev)
   : list N :=
   match es with
   | [] => if open then flush s ok outs else []
-  | e :: t =>
+  | x :: t =>
+      let e := plain (res_b s x) in
       let '(s1, o, f) := step g s e in
       if is_tick e then run_groups g s1 open ok outs t
       else if is_serve e then run_groups g s1 open (ok && f) (outs ++ o) t
@@ -255,10 +304,11 @@ Definition bev_serve (e : bev) : bool := match e with BEv e' => is_serve e' | BR
 Definition bev_tick (e : bev) : bool := match e with BEv e' => is_tick e' | BRecv => false end.
 
 Fixpoint run_groups_b (g : gcfg) (cap : nat) (b : bst) (open : bool) (ok : bool) (rcv : list out)
-         (es : list bev) : list N :=
+         (es : list gev) : list N :=
   match es with
   | [] => if open then flush_b b ok rcv else []
-  | e :: t =>
+  | x :: t =>
+      let e := res_b (b_st b) x in
       let '(b1, r, f) := bstep g cap b e in
       if bev_tick e then run_groups_b g cap b1 open ok rcv t
       else if bev_serve e then run_groups_b g cap b1 open (ok && f) (rcv ++ r) t
@@ -287,23 +337,33 @@ Fixpoint rt_rows (keys : list (N * key)) (i : nat) (t : table) : list (list N) :
   end.
 Definition dump_w (wc : wcfg) (w : world) : list N :=
   dump (w_st w) ++ enc_list (fun r : list N => r) (rt_rows (wc_keys wc) 0 (w_rt w)) ++
-  enc_ns (sortN (map V.C17.Model.r_key (V.C17.Model.recs (w_store w)))).
+  enc_ns (sortN (map V.C17.Model.r_key (V.C17.Model.recs (w_store w)))) ++
+  enc_ns (sortN (map fst (w_prov w))) ++ [N.of_nat (length (w_timers w))].
 
-Definition flush_c (wc : wcfg) (w : world) (ok : bool) (outs : list out) : list N :=
-  b2n (ok && quiescent (w_st w)) :: enc_list enc_out outs ++ dump_w wc w.
+Definition enc_reply (r : bool * list N) : list N := b2n (fst r) :: enc_ns (snd r).
+
+(* composed group = ok, nouts, the outs, dump, rtdump, storedump, provkeys, ntimers, nreplies, then per
+   reply: found npeers peers (the replies the node wrote to inbound substreams while handling the
+   event of the group) *)
+Definition flush_c (wc : wcfg) (w : world) (ok : bool) (outs : list out) (reps : list (bool * list N)) : list N :=
+  b2n (ok && quiescent (w_st w)) :: enc_list enc_out outs ++ dump_w wc w ++ enc_list enc_reply reps.
 
 Definition uev_serve (u : uev) : bool := match u with UEv e => is_serve e | _ => false end.
 Definition uev_tick (u : uev) : bool := match u with UEv e => is_tick e | _ => false end.
 
+Definition opt_list {A} (o : option A) : list A := match o with Some x => [x] | None => [] end.
+
 Fixpoint run_groups_c (wc : wcfg) (w : world) (open : bool) (ok : bool) (outs : list out)
-         (us : list uev) : list N :=
+         (reps : list (bool * list N)) (us : list guev) : list N :=
   match us with
-  | [] => if open then flush_c wc w ok outs else []
-  | u :: t =>
+  | [] => if open then flush_c wc w ok outs reps else []
+  | x :: t =>
+      let u := res_u (w_st w) x in
       let '(w1, o, f) := cstep wc w u in
-      if uev_tick u then run_groups_c wc w1 open ok outs t
-      else if uev_serve u then run_groups_c wc w1 open (ok && f) (outs ++ o) t
-      else (if open then flush_c wc w ok outs else []) ++ run_groups_c wc w1 true f o t
+      if uev_tick u then run_groups_c wc w1 open ok outs reps t
+      else if uev_serve u then run_groups_c wc w1 open (ok && f) (outs ++ o) reps t
+      else (if open then flush_c wc w ok outs reps else []) ++
+           run_groups_c wc w1 true f o (opt_list (reply_of wc w u)) t
   end.
 
 (* the peer labels of the case: every label with a key, but the local one *)
@@ -314,7 +374,7 @@ Definition wcfg_of (k : case) : wcfg :=
        (V.C17.Model.mkCfg V.gen.Consts.DEFAULT_MAX_RECORDS V.gen.Consts.DEFAULT_MAX_RECORD_SIZE_BYTES
                           V.gen.Consts.DEFAULT_MAX_PROVIDER_KEYS V.gen.Consts.DEFAULT_MAX_PROVIDER_ADDRESSES
                           V.gen.Consts.DEFAULT_MAX_PROVIDERS_PER_KEY 1000000)
-       BIG.
+       BIG (negb (N.testbit (k_mode k) 2)) (negb (N.testbit (k_mode k) 3)).
 
 (* the peers added to the routing table before the first event *)
 Definition world0 (k : case) : world :=
@@ -325,9 +385,9 @@ Definition run_case (l : list N) : list N :=
   match decode_case l with
   | Some k =>
       if negb (match k_keys k with [] => true | _ => false end)
-      then 3 :: run_groups_c (wcfg_of k) (world0 k) false true [] (k_uevents k)
+      then 3 :: run_groups_c (wcfg_of k) (world0 k) false true [] [] (k_uevents k)
       else if k_cap k =? 0
-      then 1 :: run_groups (k_g k) (st0 (k_mgr k)) false true [] (plain_events (k_events k))
+      then 1 :: run_groups (k_g k) (st0 (k_mgr k)) false true [] (k_events k)
       else 2 :: run_groups_b (k_g k) (N.to_nat (k_cap k)) (b0 (k_mgr k)) false true [] (k_events k)
   | None => [0]
   end.
@@ -402,6 +462,14 @@ Definition decode_trace (t : list N) : option (list group) :=
   end.
 
 (* ---- the oracle: the property text judged on a trace ---- *)
+(* the oracle reads the events without the model's state: the completion of a future counts as "the
+   data was sent" when the write side of the substream accepted the frame *)
+Definition oracle_fut (f : futb) : ev :=
+  EFut (fb_id f) (if written TMO (fb_w f) then RSendOk else RSendFail).
+Definition oev (x : gev) : ev := match x with GB b => plain b | GFut f => oracle_fut f end.
+Definition otmo (x : gev) : bool := match x with GFut f => fb_tmo f | GB _ => false end.
+Definition plain_events (l : list gev) : list ev := map oev l.
+
 (* the select! events of the case, in order (one per group) *)
 Definition sel_events (es : list ev) : list ev := filter (fun e => negb (is_serve e || is_tick e)) es.
 
@@ -541,7 +609,7 @@ Definition prop_ok_b (k : case) (grs : list groupb) : bool :=
   forallb (fun q => Nat.leb (count_terms q outs) 1) ids &&
   forallb (fun o => match term_of o with Some q => nmem q ids | None => true end) outs &&
   match last_opt grs, last_opt (k_events k) with
-  | Some gr, Some BRecv =>
+  | Some gr, Some (GB BRecv) =>
       match gb_dump gr, gb_rcv gr with
       | Some d, [] =>
           if (match d_dials d with [] => true | _ => false end) &&
@@ -552,7 +620,19 @@ Definition prop_ok_b (k : case) (grs : list groupb) : bool :=
   | _, _ => true
   end.
 
-Definition prop_ok_u (es : list ev) (grs : list group) : bool :=
+(* executor timeouts: when the environment has let 16 s pass with a future in flight (more than
+   WRITE_TIMEOUT, more than READ_TIMEOUT), that future has completed: fewer futures are in flight *)
+Fixpoint timely (tm : list bool) (grs : list group) (prev : N) : bool :=
+  match tm, grs with
+  | b :: tm', gr :: grs' =>
+      (if b then d_nfuts (gr_dump gr) <? prev else true) && timely tm' grs' (d_nfuts (gr_dump gr))
+  | _, _ => true
+  end.
+
+Definition sel_tmo (es : list ev) (tm : list bool) : list bool :=
+  map snd (filter (fun x : ev * bool => negb (is_serve (fst x) || is_tick (fst x))) (combine es tm)).
+
+Definition prop_ok_u (es : list ev) (tm : list bool) (grs : list group) : bool :=
       let outs := flat_map gr_outs grs in
       let ids := started_ids es in
       (* one group per select! event *)
@@ -564,13 +644,17 @@ Definition prop_ok_u (es : list ev) (grs : list group) : bool :=
       (if owes (sel_events es) grs [] [] [] dv0 then true
        else forallb (fun q => Nat.eqb (count_terms q outs) 1) ids) &&
       (* quorum honesty *)
-      honest es (sel_events es) grs [] [] [].
+      honest es (sel_events es) grs [] [] [] &&
+      (* bounded time: no future outlives the executor timeouts *)
+      timely (sel_tmo es tm) grs 0.
 
 (* composed traces: the group carries the routing-table and store dumps after the glue dump *)
 Definition p_rt_row : parser unit := let* _ := pN in let* _ := plist p_triple in pret tt.
+Definition p_reply : parser unit := let* _ := pN in let* _ := plist pN in pret tt.
 Definition p_group_c : parser group :=
   let* ok := pBool in let* outs := plist p_out in let* d := p_dump in
-  let* _ := plist p_rt_row in let* _ := plist pN in pret (mkGroup ok outs d).
+  let* _ := plist p_rt_row in let* _ := plist pN in
+  let* _ := plist pN in let* _ := pN in let* _ := plist p_reply in pret (mkGroup ok outs d).
 Fixpoint p_groups_c (fuel : nat) : parser (list group) :=
   fun l =>
     match l with
@@ -587,19 +671,35 @@ Definition decode_trace_c (t : list N) : option (list group) :=
   end.
 
 (* the user events as Model.v events, without the computed fields (the oracle reads ids, quorums,
-   and the environment's answers only) *)
-Definition skeleton (u : uev) : ev :=
-  match u with
-  | UCmd q UCFind _ => ECmd q CFindNode [] []
-  | UCmd q (UCPut qr _) _ => ECmd q (CPutRecord qr) [] []
-  | UCmd q (UCProv qr) _ => ECmd q (CStartProviding qr) [] []
-  | UCmd q (UCGet qr _) _ => ECmd q (CGetRecord qr false) [] []
-  | UCmd q UCGetProv _ => ECmd q CGetProviders [] []
-  | UCmd q (UCRefresh qr) _ => ECmd q (CRefresh qr) [] []
-  | UPutToPeers q qr _ ps => EPutToPeers q qr ps
-  | UStoreRecord _ | UAddKnownPeer _ _ => ENop
-  | UEv e => e
+   and the environment's answers only).  A refresh timer that fires starts an operation when the user
+   is providing the key (start_providing not followed by stop_providing): `prov` tracks that from the
+   user's commands alone *)
+Fixpoint skeletons (prov : list (N * quorum)) (us : list guev) : list ev :=
+  match us with
+  | [] => []
+  | GUFut f :: t => oracle_fut f :: skeletons prov t
+  | GU u :: t =>
+      match u with
+      | UCmd q UCFind _ => ECmd q CFindNode [] [] :: skeletons prov t
+      | UCmd q (UCPut qr _) _ => ECmd q (CPutRecord qr) [] [] :: skeletons prov t
+      | UCmd q (UCProv qr rk) _ => ECmd q (CStartProviding qr) [] [] :: skeletons (aset rk qr prov) t
+      | UCmd q (UCGet qr _) _ => ECmd q (CGetRecord qr false) [] [] :: skeletons prov t
+      | UCmd q UCGetProv _ => ECmd q CGetProviders [] [] :: skeletons prov t
+      | UPutToPeers q qr _ ps => EPutToPeers q qr ps :: skeletons prov t
+      | UStoreRecord _ | UAddKnownPeer _ _ => ENop :: skeletons prov t
+      | UStopProviding rk => ENop :: skeletons (adel rk prov) t
+      | UFire q rk _ =>
+          match aget rk prov with
+          | Some qr => ECmd q (CRefresh qr) [] []
+          | None => ENop
+          end :: skeletons prov t
+      | UInReq id rq => EFut id (RRead (msg_of_req rq)) :: skeletons prov t
+      | UEv e => e :: skeletons prov t
+      end
   end.
+Definition utmo (x : guev) : bool := match x with GUFut f => fb_tmo f | GU _ => false end.
+Definition user_events (us : list guev) : list uev :=
+  flat_map (fun x => match x with GU u => [u] | GUFut _ => [] end) us.
 
 (* put_record_to_peers sends the record to peers the user named, and to nobody else *)
 Definition named (us : list uev) (grs : list group) : bool :=
@@ -618,11 +718,15 @@ Definition prop_ok (c t : list N) : bool :=
   | Some k =>
       if negb (match k_keys k with [] => true | _ => false end)
       then match decode_trace_c t with
-           | Some grs => prop_ok_u (map skeleton (k_uevents k)) grs && named (k_uevents k) grs
+           | Some grs => prop_ok_u (skeletons [] (k_uevents k)) (map utmo (k_uevents k)) grs &&
+                         named (user_events (k_uevents k)) grs
            | None => false
            end
       else if k_cap k =? 0
-      then match decode_trace t with Some grs => prop_ok_u (plain_events (k_events k)) grs | None => false end
+      then match decode_trace t with
+           | Some grs => prop_ok_u (plain_events (k_events k)) (map otmo (k_events k)) grs
+           | None => false
+           end
       else match decode_trace_b t with Some grs => prop_ok_b k grs | None => false end
   | None => true
   end.
